@@ -76,3 +76,41 @@ c04_cauchy!(c04_cauchy_f64, f64);
 //@ funcs: Cauchy::<f32>::new
 //@ bounds: every pair of f32 bit patterns
 c04_cauchy!(c04_cauchy_f32, f32);
+
+// ---- C07 ----------------------------------------------------------------------------------------
+macro_rules! c07_cauchy {
+    ($name:ident, $f:ty, $su:ident, $pi:expr) => {
+        vproof_free! {
+            fn $name() {
+                let mut rng = SymRng::new(1);
+                let w0 = rng.words[0];
+                let median: $f = kani::any();
+                let scale: $f = kani::any();
+                let d = match Cauchy::<$f>::new(median, scale) { Ok(d) => d, Err(_) => return };
+                let x: $f = d.sample(&mut rng);
+                vassert!(rng.pos == 1, "Cauchy: number of words consumed depends on the parameters");
+                vassert!(flog_n() == 1, "Cauchy: expected exactly one tangent");
+                let (a, _, g) = flog_get(0);
+                vassert!(biteq64(a, ($pi * $su(w0)) as f64), "Cauchy: tangent is not taken of pi * u");
+                vassert!(biteq64(x as f64, (median + scale * (g as $f)) as f64), "Cauchy: sample is not median + scale * g");
+                kani::cover!(g == 2.0, "g = 2");
+            }
+        }
+    };
+}
+//@ id: c07_cauchy_f64
+//@ prop: C07
+//@ tier: thorough
+//@ cap: 3600
+//@ funcs: Cauchy::<f64>::new; Cauchy::<f64>::sample
+//@ bounds: every accepted (median, scale); every word; g = tan(pi u) over the free-stub value set
+//@ assumes: libm::tan replaced by a free logging stub
+c07_cauchy!(c07_cauchy_f64, f64, su01_64, core::f64::consts::PI);
+//@ id: c07_cauchy_f32
+//@ prop: C07
+//@ tier: quick
+//@ cap: 900
+//@ funcs: Cauchy::<f32>::new; Cauchy::<f32>::sample
+//@ bounds: as c07_cauchy_f64
+//@ assumes: libm::tanf replaced by a free logging stub
+c07_cauchy!(c07_cauchy_f32, f32, su01_32, core::f32::consts::PI);
